@@ -39,7 +39,12 @@ RULE = ("E2 (correspondence): the shared online generator of harness/e2.py drive
         "static(pattern) next to glob(pattern, sub), and in two different plan steps) over files that the "
         "sub-patterns really separate, with additions and deletions of such files in the history. In the "
         "restart flavour a tracked environment variable additionally goes A -> B -> A over two restarts and "
-        "the outputs must be those built with A. Direct glob oracle on the real Workflow: 2-4 registrations "
+        "the outputs must be those built with A. Directed restart cases for several tracked variables: steps "
+        "that track 2-4 variables (declared, and amended by a script step), a history of environments in which "
+        "2-3 variables change at once and then a proper subset goes back to its earlier value while the others "
+        "keep the new one; after every start: return code 0, every file equal to a from-scratch build in that "
+        "environment; a rebuild with nothing changed (always after the last environment, sometimes in between) "
+        "executes nothing, changes nothing and reports no changed variable. Direct glob oracle on the real Workflow: 2-4 registrations "
         "of one pattern with sub-patterns {none,[0-9],[a-z],[A-Z]} owned by the plan and two other steps; "
         "startup.rescan_nglobs and process_nglob_changes with nothing changed must leave steps, stored hashes "
         "and recorded matches alone; after one file appears or disappears exactly the owners whose match set "
@@ -67,11 +72,13 @@ ASSUMPTIONS = [
 ]
 
 SETTINGS = {
-    # tier: (E2 cases, E3 restart cases, E3 watch cases, max_phases, processes)
+    # tier: (E2 cases, E3 restart cases, E3 watch cases, max_phases, processes); ENV_MULTI_CASES below
     "quick": (28, 60, 60, 3, 4),
     "thorough": (120, 1200, 1200, 5, 8),
 }
 NGLOB_CASES = {"quick": 40, "thorough": 600}
+# directed E3 restart cases: steps tracking 2-4 environment variables, several changed at once, a subset reverted
+ENV_MULTI_CASES = {"quick": 24, "thorough": 400}
 # 4 of 7 E3 cases carry several glob registrations that share one pattern string (c04_e3.add_shared_globs)
 SHARED_GLOBS = [None, "one_plan", None, "static_and_glob", "two_steps", None, "one_plan+static_and_glob"]
 
@@ -441,6 +448,8 @@ def _e3_items(ctx, scale=1):
     for k in range(nwatch * scale):
         items.append({"seed": base + 20000 + k, "flavour": "watch", "max_phases": max_phases, "njob": 1 + k % 3,
                       "shared_globs": SHARED_GLOBS[k % 7]})
+    for k in range(ENV_MULTI_CASES[ctx.tier] * scale):
+        items.append({"seed": base + 40000 + k, "flavour": "restart", "kind": "env_multi", "njob": 1 + k % 2})
     return items
 
 
@@ -452,6 +461,13 @@ def _report_e3(ctx, item, rep, minimise=True):
             continue
         seen.add(sig)
         wit_item, wit_rep = item, rep
+        if item.get("kind") == "env_multi":
+            f2 = f
+            witness = {"item": dict(item, project=rep["project"], envs=rep["envs"]),
+                       "failure": {k: v for k, v in f2.items() if k != "detail"}}
+            ctx.add_failure("oracle", "E3:" + sig.split(":")[1], sig,
+                            f"seed {item['seed']} (several tracked variables): {f2['detail'][:500]}", witness=witness)
+            continue
         if minimise:
             try:
                 wit_item, wit_rep = c04_e3.minimise(item, rep, sig)
@@ -489,6 +505,8 @@ def _run_e3(ctx, items):
             if k.startswith("noop:"):
                 for j in range(v):
                     ctx.case(("e3", item["seed"], item["flavour"], k, j), nontrivial=True)
+        if item.get("kind") == "env_multi":
+            ctx.count("e3:env_multi_cases")
         if item.get("shared_globs"):
             ctx.count("e3:cases_with_shared_pattern_registrations")
             ctx.count("e3:noop_rebuilds_on_shared_pattern_projects",
@@ -573,8 +591,9 @@ def replay(ctx, obj):
     w = obj["failure"].get("witness") or {}
     if "item" in w:
         item = dict(w["item"])
-        item.setdefault("project", w.get("project"))
-        item.setdefault("history", w.get("history"))
+        if item.get("kind") != "env_multi":
+            item.setdefault("project", w.get("project"))
+            item.setdefault("history", w.get("history"))
         if w.get("cone_edits") is not None:
             item["cone_edits"] = w["cone_edits"]
             item["cone_schedule"] = w.get("cone_schedule")
